@@ -19,7 +19,7 @@ CFG = dict(
                  "RouteMonitoring for a peer without PeerUp are counted (unjudged:*), the statement does not name them"],
     parallel=5,
     floor=dict(evaluations=100, nontrivial=50,
-               counters={"histories": 60, "sched-point-hits": 3000, "subscriptions-overlapping-writes": 10, "events-folded": 2000, "histories-folded-with-daemon-apply_snapshot": 25,
+               counters={"histories": 60, "sched-point-hits": 3000, "subscriptions-overlapping-writes": 10, "events-folded": 2000, "histories-folded-with-daemon-apply_snapshot": 25, "histories-with-family-onset": 60,
                          "c18:direct-cases": 300, "c18:direct-peer-down-forwarded": 1300,
                          "c18:direct-peer-down-events-for-peers-without-open-peer-up": 2000, "c18:track-suppressed": 250,
                          "c18:e2e-histories": 8, "c18:peer-down-closes-peer-up": 45, "c18:peer-down-after-reconstructed-peer-up": 18,
